@@ -113,6 +113,10 @@ def log(x):
     return elementwise((x,), lambda e: _LOG(_to_real(e)), "float")
 
 
+def log1p(x):
+    return log(asarray(x) + 1 if not isinstance(x, (int, float)) else x + 1)
+
+
 def isfinite(x):
     raise Undecided("jnp.isfinite")
 
@@ -356,8 +360,8 @@ def _leaves(tree):
 
 
 def vmap(fun, in_axes=0, out_axes=0):
-    if out_axes != 0:
-        raise Undecided("vmap with out_axes != 0")
+    if not isinstance(out_axes, int):
+        raise Undecided("vmap with a pytree of out_axes")
 
     @functools.wraps(fun)
     def vmapped(*args, **kwargs):
@@ -429,10 +433,13 @@ def vmap(fun, in_axes=0, out_axes=0):
                 except Undecided:
                     raise Undecided(f"vmapped function returned a {type(leaf).__name__}") from None
 
-            def get(idx):
-                return z3.substitute(arr.get(tuple(idx[1:])), (i, idx[0]))
+            pos = out_axes % (arr.ndim + 1)  # position of the mapped axis in this output leaf
 
-            return SymArray((n, *arr.zshape), get, arr._dtype)
+            def get(idx):
+                rest = tuple(idx[:pos]) + tuple(idx[pos + 1 :])
+                return z3.substitute(arr.get(rest), (i, idx[pos]))
+
+            return SymArray((*arr.zshape[:pos], n, *arr.zshape[pos:]), get, arr._dtype)
 
         ctx.trusted.add("jax.vmap (trace-like: out[i] = f(mapped args at i))")
         return _map_leaves(res, lift_leaf)
